@@ -219,9 +219,11 @@ func oracle(t []string, out string) *hx.Violation {
 func gen(g *hx.Gen) {
 	remotes := []string{"127.0.0.1:1234", "127.0.0.2:80", "127.255.255.254:1", "[::1]:9", "10.0.0.7:5", "[::ffff:127.0.0.1]:80",
 		"[::ffff:10.0.0.7]:1", "[2001:db8::1]:443", "[2001:0db8:0:0:0:0:0:1]:443", "10.0.0.7", "10.0.0.7:", "010.0.0.7:1",
-		"localhost:80", "", "[fe80::1%eth0]:80", "1.2.3.4:5:6", "0.0.0.0:1", "[::]:1", "128.0.0.1:1", "[::ffff:7f00:1]:2"}
+		"localhost:80", "", "[fe80::1%eth0]:80", "1.2.3.4:5:6", "0.0.0.0:1", "[::]:1", "128.0.0.1:1", "[::ffff:7f00:1]:2",
+		"[fe80::1]:80", "[::ffff:192.168.1.1]:1", "[64:ff9b::a00:7]:1", "[2001:db8::2]:443", "192.168.1.1:9"}
 	wls := [][]string{nil, {"0.0.0.0"}, {"10.0.0.7"}, {"10.0.0.8"}, {"10.0.0.07"}, {"2001:db8::1"}, {"2001:0db8::1"},
-		{"::ffff:10.0.0.7"}, {"127.0.0.1"}, {" 10.0.0.7"}, {"10.0.0.8", "10.0.0.7"}, {"10.0.0.8", "0.0.0.0"}, {""}, {"::"}, {"128.0.0.1", "::1"}}
+		{"::ffff:10.0.0.7"}, {"127.0.0.1"}, {" 10.0.0.7"}, {"10.0.0.8", "10.0.0.7"}, {"10.0.0.8", "0.0.0.0"}, {""}, {"::"}, {"128.0.0.1", "::1"},
+		{"::1"}, {"fe80::1"}, {"192.168.1.1"}, {"::ffff:192.168.1.1"}, {"2001:db8::1", "10.0.0.7"}, {"not-an-ip"}, {"2001:db8::2", "::"}}
 	// empty/empty = auth off; equal non-empty user and password (a common set-up) must still authenticate;
 	// one side empty; a colon inside; non-ASCII
 	creds := [][2]string{{"", ""}, {"u", "p"}, {"admin", "admin"}, {"user", "pass:word"}, {"", "x"}, {"x", ""}, {"a", "a"}, {"üser", "pä55"}, {":", ":"}}
